@@ -29,7 +29,7 @@ def refBackend : Backend Pt := ⟨refOps, sqrtModPrime, fun _ x y => some (x, y)
 
 def curveBackend : Backend Curve.Pt :=
   ⟨OnCurve.ops, NT.squareRootModPrime,
-   fun c x y => .jac ⟨OnCurve.crvOf c, x, y, 1, some c.n, false⟩, .infinity⟩
+   OnCurve.loadedKeyPoint, .infinity⟩
 
 def parsePtB {P} (B : Backend P) (c : Crv) (x y : String) : Option P :=
   if x = "inf" then some B.inf else do
@@ -160,9 +160,19 @@ def handleB {P} (B : Backend P) (toks : List String) : Option String :=
       some (res (showPtsB (B.ops c)) (fromPublicKeyRecovery (B.ops c) B.sqrt (fun _ => hd) dec sig [] allow))
   | _ => none
 
+/-- the stored fields of a point object: `J,X,Y,Z,order,generator` / `A,x,y,order` / `inf` -/
+def showRawPt : Curve.Pt → String
+  | .infinity => "inf"
+  | .jac P => s!"J,{P.x},{P.y},{P.z},{match P.order with | some n => toString n | none => "N"},{if P.generator then 1 else 0}"
+  | .aff P => s!"A,{P.x},{P.y},{match P.order with | some n => toString n | none => "N"}"
+
 /-- `ecdsa_<op>` → the model of the real point classes; `ecdsaref_<op>` → the textbook reference -/
 def handle (toks : List String) : Option String :=
   match toks with
+  | ["ecdsa_loaded_key_point", c, x, y] => do
+      -- the object `VerifyingKey.from_string/from_der/from_pem` store as `pubkey.point` for the coordinates (x, y)
+      let c ← parseCrv c; let x ← parseInt x; let y ← parseInt y
+      some ("ok " ++ showRawPt (OnCurve.loadedKeyPoint c x y))
   | op :: rest =>
     if op.startsWith "ecdsaref_" then handleB refBackend (("ecdsa_" ++ (op.drop 9).toString) :: rest)
     else if op.startsWith "ecdsa_" then handleB curveBackend toks
